@@ -573,13 +573,13 @@ ALL_ATOMS = (
 _SITE_EXP = "graphiq.circuit.circuit_base:CircuitBase.to_openqasm"
 _SITE_IMP = "graphiq.circuit.circuit_dag:CircuitDAG.from_openqasm"
 _SITE_JS = "graphiq.circuit.circuit_dag:CircuitDAG.from_json"
-_ATOM_BOUND = ("fixed sample, seed-independent, same in both tiers (touches known findings C14-F1..F5): every op kind x register-type mix (7 one-qubit classes, 24 Clifford wrappers + 6 more, CNOT, CZ, ClassicalCNOT, "
+_ATOM_BOUND = ("fixed sample, seed-independent, same in both tiers (the openQASM round-trip item touches known finding C14-F1b): every op kind x register-type mix (7 one-qubit classes, 24 Clifford wrappers + 6 more, CNOT, CZ, ClassicalCNOT, "
                "ClassicalCZ, MeasurementCNOTandReset, MeasurementZ): %d atoms, each placed on every register index / "
                "classical register from {0,1,9,10,11} (control != target on one type)" % len(ALL_ATOMS))
 
 
 @S.item("json_tables.inverse", site="graphiq.circuit.ops:name_to_class_map",
-        bound="fixed sample, seed-independent (touches known finding C14-F2): the 13 operation classes to_json can meet", exhaustive=True,
+        bound="fixed sample, seed-independent: the 13 operation classes to_json can meet", exhaustive=True,
         clause="JSON export then import gives the same operations (name tables are mutually inverse)")
 def json_table_case(cls_name):
     K = getattr(gops, cls_name)
@@ -640,7 +640,7 @@ def pair_sem(spec):
 
 _RAND_BOUND = ("seeded random circuits, 3-12 operations added with add(), half of them then edited 1-3 times through replace_op / "
                "remove_op / insert_at (exercises the header state openqasm_defs after edits); by construction they contain only operation kinds / register-type mixes whose "
-               "1-op item holds on the current tree, so they cannot meet a known finding (all of which are 1-op failures)")
+               "1-op item holds on the current tree, so they cannot meet known finding C14-F1b (a 1-op failure)")
 
 
 @S.item("from_openqasm.roundtrip_random", site=_SITE_IMP, bound=_RAND_BOUND,
